@@ -332,6 +332,8 @@ class SymEx:
                 if c is not None and 'val' in c:
                     return ('c', c['val'])
                 return ('item', norm(o['item']))
+            if 'static' in o:
+                return ('static', norm(o['static']))
             return ('c', o.get('text'))
         if k in ('copy', 'move'):
             return self.read_place(b, st, o['pl'])
@@ -567,7 +569,10 @@ class SymEx:
             self.learn(st, d[1], not truth)
 
     def feasible_otherwise(self, d, taken, b, t):
-        # for discriminants of two-variant enums with both arms listed, otherwise is unreachable
+        # an `otherwise` edge into a block that is just `unreachable` (all variants are listed) is not a path
+        ob = b.blocks[t['otherwise']]
+        if ob['term']['t'] == 'unreachable' and not ob['stmts']:
+            return False
         return True
 
     def assume(self, st, d, val, arms, negated):
